@@ -83,12 +83,14 @@ Reference ==
                             tls |-> st.tls, kinds |-> st.kinds],
            [tcp |-> [d \in {"c", "s"} |-> <<>>], dfr |-> [d \in {"c", "s"} |-> InitState], tls |-> "None", kinds |-> <<>>], Flights)
 
-(* chunking and fragmentation invariance *)
-ChunkingInvariance == Done => (kinds = Reference.kinds /\ tls = Reference.tls /\ tcp = Reference.tcp)
+(* chunking and fragmentation invariance (the P forms take the reference as an argument, so that a model may compute it once) *)
+ChunkingInvarianceP(ref) == Done => (kinds = ref.kinds /\ tls = ref.tls /\ tcp = ref.tcp)
+PrefixOfReferenceP(ref) == Len(kinds) <= Len(ref.kinds) /\ kinds = SubSeq(ref.kinds, 1, Len(kinds))
+ChunkingInvariance == ChunkingInvarianceP(Reference)
 (* a conforming stream never drives the automaton into an error, however it is cut *)
 NeverError == tls # "ERROR"
 (* what has been delivered is always a prefix of what the unsegmented stream delivers *)
-PrefixOfReference == Len(kinds) <= Len(Reference.kinds) /\ kinds = SubSeq(Reference.kinds, 1, Len(kinds))
+PrefixOfReference == PrefixOfReferenceP(Reference)
 (* bytes waiting in a TCP buffer never contain a whole record *)
 NoWholeRecordWaiting == \A d \in {"c", "s"} : ParseRaw(tcp[d], 0, Len(tcp[d])).k # "ok"
 =============================================================================
